@@ -166,10 +166,13 @@ def design_table():
                 stars.append(m["name"])
             msg = (fl[1] if len(fl) > 1 else "").replace("  -> ", "").replace("|", "/")[:150]
             by = own + star + ((", " + ", ".join(others)) if others else "")
+        elif m.get("masked_by_fix"):
+            msg, by = ("no longer breaks the property on the repaired tree (repair %s): %s" % (m["masked_by_fix"]["commit"], m["masked_by_fix"]["note"][:160]),
+                       ", ".join(others) or "-")
         else:
             msg, by = "NOT CAUGHT by its own check", ", ".join(others) or "-"
         t = m["confirmation"]["confirmed_at"]
-        rnd = m.get("round") or (1 if t < "2026-10-01T05" else 2 if t < "2026-10-01T08" else 3 if t < "2026-10-01T10" else 4 if t < "2026-10-01T13" else 5)
+        rnd = m.get("round") or (1 if t < "2026-10-01T05" else 2 if t < "2026-10-01T08" else 3 if t < "2026-10-01T10" else 4 if t < "2026-10-01T13" else 5 if t < "2026-10-01T16" else 6 if t < "2026-10-01T19" else 7)
         rows.append("| %s | %s | %d | %s | %s |" % (m["name"], own, rnd, by, msg))
     hdr = ("| seeded change (seeded/<name>/) | breaks | round | caught by (quick tier; * = reported without a failing input) | "
            "what the property's own check printed |\n|---|---|---|---|---|\n")
